@@ -27,8 +27,8 @@ RULE = (
     "status, context) summed over (machine, engine)"
 )
 BOUNDS = {
-    "quick": "TREE(N<=4): 1139 machines + 9 parallel skeletons C(P(s1,s2),A) x 3 engines, closure per machine; FOLLOW(N<=3)",
-    "thorough": "TREE(N<=5): 8086 machines + 54 parallel skeletons x 3 engines, closure per machine; FOLLOW(N<=4)",
+    "quick": "TREE(N<=4): 1139 machines + 9 parallel skeletons C(P(s1,s2),A) + 48 history skeletons C(X(H,s1,s2),A) x 3 engines, closure per machine; FOLLOW(N<=3)",
+    "thorough": "TREE(N<=5): 8086 machines + 54 parallel skeletons + 120 history skeletons x 3 engines, closure per machine; FOLLOW(N<=4)",
 }
 ASSUMPTIONS = [
     "canonical state = (configuration, history memory, status, context, output, error flag, actors); "
@@ -42,6 +42,7 @@ def units(tier: str) -> List[Any]:
     n = 4 if tier == "quick" else 5
     us: List[Any] = [("tree", t) for t in F.trees_upto(n)]
     us += [("tree", t) for t in F.par_skeletons(tier)]
+    us += [("tree", t) for t in F.hist_skeletons(tier)]
     us += [("follow", spec) for spec in follow.specs(3 if tier == "quick" else 4)]
     return us
 
